@@ -21,13 +21,14 @@
   * pickle, `dd.bdd.BDD.load` / `dd.autoref.BDD.load`: any `levels`, dynamic reordering enabled
     or not (the loader never looks at it outside a context) — `C17_load_rejected`,
     `C17_load_rejected_autoref`;
-  * JSON, `_copy.load_json(load_order=False)`, dynamic reordering not enabled, no node line
-    with the terminal's id `1` (`jsonIdOne` below: such a file is ACCEPTED and leaks a
-    reference) — `C17_load_json_rejected`.
-  NOT covered: `load_order=True` on ill-formed content (`reorder(order)` and the raw
-  `find_or_add` on arbitrary input) and JSON with reordering enabled on ill-formed content.
+  * JSON, `_copy.load_json(load_order=False)`, dynamic reordering not enabled —
+    `C17_load_json_rejected` (a node line with the terminal's id `1` is refused since F18:
+    `jsonIdOne` below).
+  `load_order=True` on ANY content, and `load_order=False` into a manager with dynamic reordering
+  ENABLED on ANY content: DDProps/C17Load2.lean.
 -/
 import DDProofs.LoadRejected
+import DDProofs.LoadJson2Off
 open Std
 namespace DD
 
@@ -50,14 +51,14 @@ theorem C17_load_rejected_autoref (f : PickleFile) (levels : Bool) (m : Mgr) (hI
       | .error _ => RefExact (loadPickleAutoref f levels m).2 ext :=
   loadPickleAutoref_leaves f levels m hI hc
 
-/-- C17: `load_json(file, bdd, load_order=False)` on ANY content without a node line `1`,
+/-- C17: `load_json(file, bdd, load_order=False)` on ANY content,
 dynamic reordering not enabled, from a between-calls state with the counts exact for `e`:
 `KeptV`, and again a between-calls state (`GoodState`: invariant, order a bijection, reordering
 off, outside a context) with the counts exact for `e` plus one reference per returned `Function`
 — for `e` itself when the call raised -/
-theorem C17_load_json_rejected (f : JsonFile) (hid : ∀ ln ∈ f.nodes, ln.id ≠ 1) (m : Mgr)
+theorem C17_load_json_rejected (f : JsonFile) (m : Mgr)
     (e : Nat → Nat) (hg : GoodState m e) : JsonLeaves e m (loadJson f false m) :=
-  loadJson_false_any f hid m e hg
+  loadJson_false_any f m e hg
 
 /-- C17: what `KeptV` gives the user -/
 theorem C17_load_rejected_means (m m' : Mgr) (h : KeptV m m') (u : Int) (hu : m.tbl.Mem u) :
@@ -97,7 +98,7 @@ example : (loadJson jsonDangling false {}).1 = .error .key ∧
     (loadJson jsonDangling false {}).2.ref.toList = [(1, 3), (2, 0)] := by decide +kernel
 
 example : JsonLeaves (fun _ => 0) {} (loadJson jsonDangling false {}) :=
-  C17_load_json_rejected jsonDangling (by decide) {} _ GoodState.init
+  C17_load_json_rejected jsonDangling {} _ GoodState.init
 
 /-- F16 (fixed): `levels=True` into a manager (variables `q`, `r` at levels 0, 1) that has other
 variables on the file's levels: refused by the pre-check (`ValueError`) with NOTHING declared
@@ -145,16 +146,20 @@ example : (loadPickle fileGapA false {}).1 = .error .assertion ∧
 
 /-! ### a JSON file with a node line for the terminal's id
 
-`_make_node` asserts `k > 0` only.  A line `"1": […]` puts a node on the shelf under the key 1,
-but `_node_from_int(1, …)` is the constant TRUE: the release loop never reaches the shelf's
-entry.  The file is ACCEPTED, returns the constant, and leaves the node built for the line with
-one reference nobody holds. -/
+F18 (fixed): `_make_node` asserted `k > 0` only.  A line `"1": […]` put a node on the shelf under
+the key 1, but `_node_from_int(1, …)` is the constant TRUE: the release loop never reached the
+shelf's entry; the file was ACCEPTED, returned the constant, and left the node built for the line
+with one reference nobody held.  The loader now refuses `k <= 1` (`AssertionError`) before
+anything is built. -/
 
 def jsonIdOne : JsonFile :=
   { levelOfVar := [("x", 0)], roots := .list [1], nodes := [⟨1, 0, -1, 1⟩] }
 
-example : (loadJson jsonIdOne false {}).1 = .ok (.list [1]) ∧
-    (loadJson jsonIdOne false {}).2.tbl.succ.toList = [(2, ⟨0, -1, 1⟩)] ∧
-    (loadJson jsonIdOne false {}).2.ref.toList = [(1, 3), (2, 1)] := by decide +kernel
+example : (loadJson jsonIdOne false {}).1 = .error .assertion ∧
+    (loadJson jsonIdOne false {}).2.tbl.succ.toList = [] ∧
+    (loadJson jsonIdOne false {}).2.ref.toList = [(1, 1)] := by decide +kernel
+
+example : JsonLeaves (fun _ => 0) {} (loadJson jsonIdOne false {}) :=
+  C17_load_json_rejected jsonIdOne {} _ GoodState.init
 
 end DD
